@@ -208,6 +208,9 @@ def translate(ra, dec, r, theta):
     factor += np.cos(np.radians(dec)) \
             * np.sin(np.radians(r)) \
             * np.cos(np.radians(theta))
+    # rounding can leave factor marginally outside [-1, 1] when the target is a
+    # pole, and arcsin would then return nan
+    factor = np.minimum(1, np.maximum(-1, factor))
     dec_out = np.degrees(np.arcsin(factor))
 
     y = np.sin(np.radians(theta)) * np.sin(np.radians(r)) \
